@@ -435,6 +435,38 @@ func TestC17Model(t *testing.T) {
 			"Read":            func(t *rapid.T) { fail(r.do(step{"Read", genBigSize().Draw(t, "n")})) },
 			"Pos":             func(t *rapid.T) { fail(r.do(step{"Pos", 0})) },
 			"Size":            func(t *rapid.T) { fail(r.do(step{"Size", 0})) },
+			// two short patterns as one action each, so that they occur far
+			// more often than three independent draws would make them:
+			// a bulk read, a seek back into (or just before) what was read, a read there
+			"BulkReadThenBack": func(t *rapid.T) {
+				fail(r.do(step{"Read", rapid.SampledFrom([]int{1023, 1024, 1025, 2047, 2048, 2049, 3000}).Draw(t, "bulk")}))
+				back := rapid.OneOf(rapid.IntRange(1, 1100), rapid.IntRange(1, 3100)).Draw(t, "back")
+				target := int(r.p.Pos()) - back
+				if target < 0 {
+					target = 0
+				}
+				fail(r.do(step{"SeekPos", target}))
+				switch rapid.IntRange(0, 2).Draw(t, "then") {
+				case 0:
+					fail(r.do(step{"ReadUint16", 0}))
+				case 1:
+					fail(r.do(step{"ReadBytes", rapid.IntRange(1, 1024).Draw(t, "n")}))
+				default:
+					fail(r.do(step{"Read", rapid.IntRange(1, 1500).Draw(t, "n")}))
+				}
+			},
+			// a read that fails at the end of the input, then a shorter one at
+			// the same place that fits
+			"FailThenShorter": func(t *rapid.T) {
+				k := rapid.IntRange(1, 3).Draw(t, "fromEnd")
+				if L < k {
+					t.Skip("input too short")
+				}
+				fail(r.do(step{"SeekPos", L - k}))
+				fail(r.do(step{"ReadUint32", 0}))
+				fail(r.do(step{"SeekPos", L - k}))
+				fail(r.do(step{"ReadUint8", 0}))
+			},
 		})
 		nt := r.crossed || r.backseek || r.hitEOF
 		var labels []string
